@@ -10,6 +10,9 @@ import (
 	"unsafe"
 
 	"github.com/philpearl/plenc"
+	"github.com/philpearl/plenc/plenccodec"
+	"github.com/philpearl/plenc/plenccore"
+	"github.com/unravelin/null"
 
 	"verifharness/core"
 	"verifharness/gen"
@@ -103,6 +106,13 @@ func c08Plants() []plant {
 				{T([]float64(nil)), "flat"}, {reflect.SliceOf(leaf), "intern"}, {T(map[int]string(nil)), "intern"}, {structOf(), "flat"},
 			}[r.IntN(10)]
 			return structOf(sf("A", c.t, fmt.Sprintf(`plenc:"1,%s"`, c.opt)), sf("B", tInt, `plenc:"2"`))
+		}},
+		// pointers to a type whose registered codec is fixed width although its kind is not a float (null.Float
+		// from the null package, a codec the caller registered): an error or a working codec (round 11: q08)
+		{"pointers-to-registered-fixed-width", false, func(r *rand.Rand) reflect.Type {
+			nf, fx := T(null.Float{}), T(c08Fix32{})
+			return []reflect.Type{reflect.SliceOf(reflect.PointerTo(nf)), reflect.SliceOf(reflect.PointerTo(reflect.PointerTo(nf))), reflect.SliceOf(reflect.PointerTo(fx)), reflect.SliceOf(nf), reflect.SliceOf(fx),
+				reflect.MapOf(tString, reflect.SliceOf(reflect.PointerTo(nf))), reflect.PointerTo(nf), reflect.PointerTo(fx), reflect.MapOf(tInt, reflect.PointerTo(fx)), reflect.SliceOf(reflect.SliceOf(fx))}[r.IntN(10)]
 		}},
 		{"recursive-invalid", true, func(r *rand.Rand) reflect.Type {
 			return types.InvalidRecursive[r.IntN(len(types.InvalidRecursive))]
@@ -360,6 +370,7 @@ func c08Case(c *core.Ctx, idx int) {
 	name := cfgName(cfg)
 	p := instNew(cfg)
 	tc := &tcase{cfg: cfg, name: name, p: p}
+	p.RegisterCodec(reflect.TypeOf(c08Fix32{}), c08Fix32Codec{})
 	if idx%19 == 7 {
 		c08PtrKeys(c, idx, cfg, name, p)
 		return
@@ -372,6 +383,10 @@ func c08Case(c *core.Ctx, idx int) {
 		typ, where := wrapPlant(r, inner, r.IntN(4))
 		if cfg.Validate(typ, "") == "" && cfg.Repeated(typ, "") {
 			// known finding D25: the repeated-field form has no framing outside a struct
+			typ, where = structOf(sf("T", typ, `plenc:"1"`)), "field>"+where
+		}
+		if pl.name == "pointers-to-registered-fixed-width" && cfg.ProtoArrays && typ.Kind() == reflect.Slice {
+			// D25 again (the model cannot tell: it does not know the registered codec)
 			typ, where = structOf(sf("T", typ, `plenc:"1"`)), "field>"+where
 		}
 		tc.typ = typ
@@ -416,6 +431,12 @@ func c08Case(c *core.Ctx, idx int) {
 				rec.Sample(map[string]any{"config": name, "plant": pl.name, "where": where, "type": typeString(typ), "error": cerr.Error()})
 			}
 			c08AfterRejection(c, tc, r)
+			return
+		}
+		if pl.name == "pointers-to-registered-fixed-width" {
+			if cerr == nil {
+				c08FixedPtrs(c, tc, r, desc)
+			}
 			return
 		}
 		// valid neighbour
@@ -502,6 +523,104 @@ func c08AfterRejection(c *core.Ctx, tc *tcase, r *rand.Rand) {
 		}
 	}
 	rec.Count("post_rejection_probes", 1)
+}
+
+// c08Fix32 is a type of struct kind whose codec, registered by the caller, is fixed width
+type c08Fix32 struct{ V uint32 }
+
+type c08Fix32Codec struct{}
+
+func (c08Fix32Codec) Omit(ptr unsafe.Pointer) bool { return false }
+func (c08Fix32Codec) WireType() plenccore.WireType { return plenccore.WT32 }
+func (c08Fix32Codec) Descriptor() plenccodec.Descriptor {
+	return plenccodec.Descriptor{Type: plenccodec.FieldTypeFloat32}
+}
+func (c08Fix32Codec) New() unsafe.Pointer { return unsafe.Pointer(new(c08Fix32)) }
+func (c08Fix32Codec) Size(ptr unsafe.Pointer, tag []byte) int { return len(tag) + 4 }
+func (c08Fix32Codec) Append(data []byte, ptr unsafe.Pointer, tag []byte) []byte {
+	v := (*c08Fix32)(ptr).V // (a nil ptr is the library handing the codec something it must not)
+	return append(append(data, tag...), byte(v), byte(v>>8), byte(v>>16), byte(v>>24))
+}
+func (c08Fix32Codec) Read(data []byte, ptr unsafe.Pointer, wt plenccore.WireType) (int, error) {
+	if len(data) < 4 {
+		return 0, fmt.Errorf("fix32: %d bytes", len(data))
+	}
+	(*c08Fix32)(ptr).V = uint32(data[0]) | uint32(data[1])<<8 | uint32(data[2])<<16 | uint32(data[3])<<24
+	return 4, nil
+}
+
+// fillPresent fills v with values that no normalisation touches: no nil pointer, no empty container,
+// no zero number, every null.Float valid
+func fillPresent(v reflect.Value, r *rand.Rand) {
+	switch v.Kind() {
+	case reflect.Ptr:
+		v.Set(reflect.New(v.Type().Elem()))
+		fillPresent(v.Elem(), r)
+	case reflect.Slice:
+		n := 1 + r.IntN(3)
+		v.Set(reflect.MakeSlice(v.Type(), n, n))
+		for i := 0; i < n; i++ {
+			fillPresent(v.Index(i), r)
+		}
+	case reflect.Map:
+		v.Set(reflect.MakeMap(v.Type()))
+		for i := 0; i < 1+r.IntN(2); i++ {
+			k, e := reflect.New(v.Type().Key()).Elem(), reflect.New(v.Type().Elem()).Elem()
+			fillPresent(k, r)
+			fillPresent(e, r)
+			v.SetMapIndex(k, e)
+		}
+	case reflect.Struct:
+		switch v.Type() {
+		case reflect.TypeOf(null.Float{}):
+			v.Set(reflect.ValueOf(null.FloatFrom(float64(1 + r.IntN(1000)))))
+			return
+		}
+		for i := 0; i < v.NumField(); i++ {
+			if v.Type().Field(i).IsExported() && v.Type().Field(i).Tag.Get("plenc") != "-" {
+				fillPresent(v.Field(i), r)
+			}
+		}
+	case reflect.String:
+		v.SetString(fmt.Sprintf("s%d", r.IntN(1000)))
+	case reflect.Int, reflect.Int8, reflect.Int16, reflect.Int32, reflect.Int64:
+		v.SetInt(int64(1 + r.IntN(100)))
+	case reflect.Uint, reflect.Uint8, reflect.Uint16, reflect.Uint32, reflect.Uint64:
+		v.SetUint(uint64(1 + r.IntN(100)))
+	case reflect.Float32, reflect.Float64:
+		v.SetFloat(float64(1 + r.IntN(100)))
+	case reflect.Bool:
+		v.SetBool(true)
+	}
+}
+
+// c08FixedPtrs: a codec was handed out for a definition with pointers to (or slices of) a type whose
+// registered codec is fixed width. It must not crash and must bring a fully present value back.
+func c08FixedPtrs(c *core.Ctx, tc *tcase, r *rand.Rand, desc string) {
+	rec := c.Rec
+	if tc.typ.Kind() == reflect.Ptr {
+		return
+	}
+	for j := 0; j < 3; j++ {
+		v := reflect.New(tc.typ)
+		fillPresent(v.Elem(), r)
+		rec.Eval(1)
+		rec.Count("fixed_width_registered_accepted", 1)
+		data, err, pn := marshal(tc.p, nil, v.Interface())
+		if err != nil || pn != "" {
+			rec.Violation("accepted-codec-fails", fmt.Sprintf("Marshal with the codec that was handed out: %v %s %s\n  value %s", err, pn, desc, model.Show(v.Elem())), map[string]any{"type": typeString(tc.typ)})
+			return
+		}
+		out := reflect.New(tc.typ)
+		if err, pn := unmarshal(tc.p, data, out.Interface()); err != nil || pn != "" {
+			rec.Violation("accepted-codec-fails", fmt.Sprintf("Unmarshal with the codec that was handed out: %v %s %s\n  bytes %s", err, pn, desc, hexHead(data)), map[string]any{"type": typeString(tc.typ)})
+			return
+		}
+		if !reflect.DeepEqual(v.Elem().Interface(), out.Elem().Interface()) {
+			rec.Violation("accepted-codec-corrupts", fmt.Sprintf("the codec that was handed out does not bring a fully present value back %s\n  value %s\n  got   %s\n  bytes %s", desc, model.Show(v.Elem()), model.Show(out.Elem()), hexHead(data)), map[string]any{"type": typeString(tc.typ)})
+			return
+		}
+	}
 }
 
 // c08Works: an accepted definition gives a codec that round-trips
